@@ -64,28 +64,35 @@ def tm_halting_start(g):
     return [('tm', 0, g, (), 'accept'), ('tm', 0, g, (), 'reject')]
 
 
-def parts(spec, blank='_'):
+def parts(spec, blank='_', gamma=None, sigma=None, names=None, order='cells'):
+    """gamma / sigma override the default tape alphabet (g-1 letters + blank); names overrides the working state names;
+    order = 'cells' (state major) or 'symbols' (symbol major): insertion order of the delta dict."""
     _, w, g, choice, q0 = spec
-    Q = ['s%d' % i for i in range(w)] + ['qa', 'qr']
-    gamma = SYMS[:g - 1] + [blank]
-    sigma = SYMS[:g - 1]
+    Q = (list(names[:w]) if names else ['s%d' % i for i in range(w)]) + ['qa', 'qr']
+    if gamma is None:
+        gamma = SYMS[:g - 1] + [blank]
+    if sigma is None:
+        sigma = [x for x in gamma if x != blank][:g - 1] if gamma is not None and len(gamma) != g else SYMS[:g - 1]
     cells = [(q, a) for q in range(w) for a in range(g)]
-    delta = {}
+    items = []
     for (q, a), c in zip(cells, choice):
         if c is not None:
             t, b, d = c
-            delta[Q[q], gamma[a]] = (Q[t], gamma[b], d)
+            items.append(((Q[q], gamma[a]), (Q[t], gamma[b], d)))
+    if order == 'symbols':
+        items.sort(key=lambda it: (gamma.index(it[0][1]), it[0][0]))
+    delta = dict(items)
     start = Q[0] if q0 == 0 else ('qa' if q0 == 'accept' else 'qr')
     return Q, sigma, gamma, delta, start, 'qa', 'qr', blank
 
 
-def build(spec, blank='_'):
+def build(spec, blank='_', **kw):
     from gambatools.tm import TM
-    Q, sigma, gamma, delta, q0, qa, qr, blank = parts(spec, blank)
+    Q, sigma, gamma, delta, q0, qa, qr, blank = parts(spec, blank, **kw)
     return TM(set(Q), set(sigma), set(gamma), dict(delta), q0, qa, qr, blank)
 
 
-def show(spec, blank='_'):
-    Q, sigma, gamma, delta, q0, qa, qr, blank = parts(spec, blank)
+def show(spec, blank='_', **kw):
+    Q, sigma, gamma, delta, q0, qa, qr, blank = parts(spec, blank, **kw)
     return {'Q': Q, 'Sigma': sigma, 'Gamma': gamma, 'q0': q0, 'accept': qa, 'reject': qr, 'blank': blank,
             'delta': sorted('{},{} -> {},{},{}'.format(p, a, *v) for (p, a), v in delta.items())}
